@@ -108,6 +108,7 @@ struct scenario
     std::string linebuf;
     std::vector<std::shared_ptr<rec_observer>> obs;
     bool v6 = false;
+    bool merge = false;   // cfg merge=1: replies queued behind unread bytes coalesce with them
 
     void wire()
     {
@@ -126,7 +127,15 @@ struct scenario
             {
                 std::string line = linebuf.substr(0, p);
                 linebuf.erase(0, p + 2);
-                for (std::string & c : srv.on_command(line)) ms->in.chunks.push_back(c);
+                bool first = true;
+                for (std::string & c : srv.on_command(line))
+                {
+                    // merge=1: the first bytes the server writes in answer to a command while earlier bytes are still
+                    // unread arrive together with those (one network read), as they would on a TCP connection
+                    if (merge && first && !ms->in.chunks.empty() && !ms->in.chunks.back().empty()) ms->in.chunks.back() += c;
+                    else ms->in.chunks.push_back(c);
+                    first = false;
+                }
             }
         };
         ms->on_connect = [this]() {
@@ -158,6 +167,7 @@ std::string run(const std::vector<std::string> & tok)
         else if (kv == "type=I") type = ftp::transfer_type::binary;
         else if (kv == "ip=6") sc.v6 = true;
         else if (kv == "ip=4") sc.v6 = false;
+        else if (kv == "merge=1") sc.merge = true;
         else if (kv.rfind("prop=", 0) == 0) { /* which property's monitor the driver applies */ }
         else return "bad-op";
     }
